@@ -344,6 +344,25 @@ example (kind : LUKind) (L : Nat) (csc : Bool) (fuel : Nat) :
     nanRatOps_laws loop step 0 1 (by decide) (show 1 < 2 by decide) rfl
 
 open C10bEx in
+/-- `C10_ros_nan_reactant`: `[A]` of cell 0 is NaN; seen in `Yerror` at the product `B` -/
+example (kind : LUKind) (L : Nat) (csc : Bool) (fuel : Nat) :
+    (rosSolve nanRatOps consts (cfg kind L csc) params kOk atol (q 1 1000) 1 #[#[NaNRat.nan, 1], #[1, 1]]
+      scratch (fuel + 1)).status = .nanDetected :=
+  (C10_ros_nan_reactant consts (cfg kind L csc) params kOk atol (q 1 1000) 1 #[#[NaNRat.nan, 1], #[1, 1]]
+    scratch fuel nanRatOps_laws (m := c10map) (procs := c10procs) (rxns := [([0], [(1, 1)])]) c10_build
+    c10_resolves loop step (by decide) (by decide) 0 1 (by decide) (show 1 < 2 by decide) (by decide)
+    (by decide) (by decide) (by decide) 0 ([0], [(1, 1)]) 2 rfl rfl 0 (by simp) rfl
+    (Or.inr ⟨(1, 1), by simp, rfl⟩)).1
+
+open C10bEx in
+/-- `C10_ros_nan_tolerance`: NaN absolute tolerance of `B` -/
+example (kind : LUKind) (L : Nat) (csc : Bool) (fuel : Nat) :
+    (rosSolve nanRatOps consts (cfg kind L csc) params kOk #[q 1 1000, NaNRat.nan] (q 1 1000) 1 yOk
+      scratch (fuel + 1)).status = .nanDetected :=
+  C10_ros_nan_tolerance consts (cfg kind L csc) params kOk #[q 1 1000, NaNRat.nan] (q 1 1000) 1 yOk
+    scratch fuel nanRatOps_laws loop step 1 (by decide) (show 1 < 2 by decide) (Or.inl rfl)
+
+open C10bEx in
 /-- cross-check by evaluating the model (kernel computation, independent of the theorems): the four
     LU variants on the NaN rate constant; and the same run without the NaN does not stop at once -/
 example :
